@@ -367,6 +367,15 @@ fn verif_step() { VERIF_STEPS.with(|c| c.set(c.get() + 1)) }
  * set pointing at the next check from that element to be processed.
  * This index applies to Disjunct entries; for other entries, it
  * should be zero.  This index is used to control backtracking.
+ *
+ * The checks examined so far are assumed to hold (this is what stops
+ * the traversal on cyclic objects).  The assumption is only justified
+ * if the current line of checking succeeds, so when an alternative of a
+ * Disjunct fails, the checks examined since the Disjunct was taken up
+ * are forgotten again: each set also records the length of the trail of
+ * examined checks at that point.  A failed alternative stays failed
+ * whatever is assumed, so failed alternatives are remembered, which
+ * keeps the amount of work bounded.
  */
 
 /* A pending check */
@@ -376,8 +385,12 @@ type PendingSet = VecDeque<PendingCheck>;
 
 /* The state */
 struct State {
-    todo:     VecDeque<(PendingSet, usize)>,
+    todo:     VecDeque<(PendingSet, usize, usize)>,
     examined: BTreeSet<PendingCheck>,
+    // the examined checks in the order in which they were examined
+    trail:    Vec<PendingCheck>,
+    // alternatives of disjuncts that are known not to match
+    failed:   BTreeSet<PendingCheck>,
 }
 
 /* The result of picking the next check given the current state. */
@@ -388,16 +401,20 @@ impl State {
         let mut first = VecDeque::new();
         first.push_back((Rc::clone(obj), Rc::clone(chk)));
         let mut todo = VecDeque::new();
-        todo.push_back((first, 0));
-        let examined = BTreeSet::new();
-        State { todo, examined }
+        todo.push_back((first, 0, 0));
+        State {
+            todo,
+            examined: BTreeSet::new(),
+            trail: Vec::new(),
+            failed: BTreeSet::new(),
+        }
     }
 
     /* returns the last retrieved check back to the state, which must
      * be non-empty (i.e. it should not have been modified since the
      * retrieval.) */
     fn return_check(&mut self, chk: PendingCheck) {
-        if let Some((pending, _)) = self.todo.get_mut(0) {
+        if let Some((pending, _, _)) = self.todo.get_mut(0) {
             pending.push_front(chk);
         } else {
             unreachable!()
@@ -414,14 +431,20 @@ impl State {
             }
         }
         if !set.is_empty() {
-            self.todo.push_front((set, 0))
+            self.todo.push_front((set, 0, 0))
         }
     }
 
     /* adds a check to the examined set */
     fn examine(&mut self, o: &Rc<LocatedVal<PDFObjT>>, c: &Rc<TypeCheck>) {
         let chk = (Rc::clone(o), Rc::clone(c));
+        self.trail.push((Rc::clone(o), Rc::clone(c)));
         self.examined.insert(chk);
+    }
+
+    fn have_failed(&self, o: &Rc<LocatedVal<PDFObjT>>, c: &Rc<TypeCheck>) -> bool {
+        let chk = (Rc::clone(o), Rc::clone(c));
+        self.failed.contains(&chk)
     }
 
     fn have_examined(&self, o: &Rc<LocatedVal<PDFObjT>>, c: &Rc<TypeCheck>) -> bool {
@@ -436,7 +459,7 @@ impl State {
         loop {
             #[cfg(feature = "verif")]
             verif_step();
-            if let Some((pending, next_idx)) = self.todo.get_mut(0) {
+            if let Some((pending, next_idx, mark)) = self.todo.get_mut(0) {
                 if let Some((obj, tc)) = pending.pop_front() {
                     //println!(" get_next_check({}): todo[0] tc={:?}", cnt, tc);
                     match tc.as_ref() {
@@ -456,6 +479,16 @@ impl State {
                                         //);
                                         continue
                                     } else {
+                                        // the alternative tried last has
+                                        // failed: remember that, and forget
+                                        // the checks examined under it.
+                                        self.failed
+                                            .insert((Rc::clone(&obj), Rc::clone(&set[*next_idx - 1])));
+                                        while self.trail.len() > *mark {
+                                            if let Some(p) = self.trail.pop() {
+                                                self.examined.remove(&p);
+                                            }
+                                        }
                                         // if there is an error, but there
                                         // are remaining cases to try in
                                         // the disjunct, we adjust the
@@ -506,6 +539,7 @@ impl State {
                                         // this disjunct in progress.
                                         let c = Rc::clone(&set[0]);
                                         *next_idx = 1;
+                                        *mark = self.trail.len();
                                         pending.push_front((Rc::clone(&obj), tc));
                                         return Ok(Some((obj, c)))
                                     }
@@ -560,7 +594,7 @@ impl State {
         loop {
             #[cfg(feature = "verif")]
             verif_step();
-            if let Some((pending, next_idx)) = self.todo.get_mut(0) {
+            if let Some((pending, next_idx, _)) = self.todo.get_mut(0) {
                 if let Some((_, tc)) = pending.front() {
                     match tc.as_ref() {
                         TypeCheck::Rep(chk) => match chk.typ() {
@@ -734,6 +768,14 @@ pub fn check_type(
             Err(err) => return Some(o.place(err)),
         };
 
+        if state.have_failed(&o, &tc) {
+            // this alternative has been tried on this object before.
+            result = Some(o.place(TypeCheckError::ValueMismatch(
+                Rc::clone(&o),
+                String::from("An alternative that failed before"),
+            )));
+            continue
+        }
         if state.have_examined(&o, &tc) {
             // An examined check counts as passed, also when it is an
             // alternative tried after another one has failed.
